@@ -1000,6 +1000,56 @@ func c11MetaAnswerUnits() []*explore.Unit {
 	long := strings.Repeat("T", 32765)
 	infos := map[string][]byte{"valid": mkInfo("t", false), "offline": mkInfo("t", true), "long-table": mkInfo(long, false), "long-table-offline": mkInfo(long, true), "garbage": []byte("PBUF\xff\xff")}
 	rows := map[string][]byte{"empty": {}, "comma": []byte(","), "first": []byte("t,,1"), "mid": []byte("t,m,5.x."), "huge": append([]byte("t,"), append(bytes.Repeat([]byte{'k'}, 40000), []byte(",5")...)...)}
+	// the server location of an otherwise well-formed row: bytes that are not UTF-8, no
+	// port, nothing at all (the address ends up in log lines, metric labels and the dialer)
+	for _, srv := range []string{"rs1:1\xff", "\xff\xfe:1", "", ":", "rs1", "[::1%\xff]:1"} {
+		srv := srv
+		var returned bool
+		u := &explore.Unit{Name: fmt.Sprintf("metaanswer|get|well-formed row|server=%q", srv), Bound: 0, Opt: vrt.Options{MaxSteps: 60000}}
+		u.Body = func() {
+			returned = false
+			cl := stdCluster()
+			answers := 0
+			cl.MetaHook = func(start []byte, cells []sim.KV) []sim.KV {
+				answers++
+				if answers > 2 || len(cells) < 2 {
+					return cells
+				}
+				out := append([]sim.KV(nil), cells...)
+				for i := range out {
+					if string(out[i].Qualifier) == "server" {
+						out[i].Value = []byte(srv)
+					}
+				}
+				return out
+			}
+			w := newWorldW(cl, gohbase.FlushInterval(0), gohbase.RpcQueueSize(1))
+			ctx, cancel := vcontext.WithTimeout(context.Background(), 5*time.Minute)
+			g, _ := hrpc.NewGetStr(ctx, "t", "n")
+			w.client.Get(g)
+			cancel()
+			returned = true
+			w.client.Close()
+			vrt.Sleep(10 * time.Minute)
+			for _, c := range cl.WConns {
+				c.Server.Stop = true
+			}
+		}
+		u.Check = func(res *vrt.Result) *explore.Finding {
+			if f := baseFinding(res); f != nil {
+				f.Msg += "\n" + u.Name
+				return f
+			}
+			if res.Deadlock || !returned {
+				return &explore.Finding{Class: "api-call-blocked-on-odd-meta-row", Msg: fmt.Sprintf("%s: %v", u.Name, res.Blocked)}
+			}
+			if cb := clientBlocked(res); len(cb) > 0 {
+				return &explore.Finding{Class: "client-thread-left-blocked", Msg: fmt.Sprintf("%s: %v", u.Name, cb)}
+			}
+			return nil
+		}
+		units = append(units, u)
+	}
 	for _, rn1 := range []string{"empty", "comma", "first", "mid", "huge"} {
 		for _, rn2 := range []string{"empty", "mid"} {
 			for _, in := range []string{"valid", "offline", "long-table", "long-table-offline", "garbage"} {
